@@ -15,7 +15,10 @@ package proof
 // amino-encoded header fields in this order.
 //@ func GetBlockHeaderMerkleParts
 //@ may_panic
-//@ ensures result.Height == wrapu64(block.Height) && result.TimeSecond == wrapu64(block.Time.Unix())
+//@ ensures result.Height == wrapu64(block.Height) && result.TimeSecond == wrapu64(block.Time.Unix()) && result.TimeNanoSecond == wrapu32(block.Time.Nanosecond())
+//@ ensures result.VersionAndChainIdHash == ext("merkle.HashFromByteSlices", list(ext("Consensus.Marshal", block.Version), absfn("cdcEncode", block.ChainID)))
+//@ ensures result.LastBlockIdAndOther == ext("merkle.HashFromByteSlices", list(ext("PBBlockID.Marshal", ext("BlockID.ToProto", block.LastBlockID)),
+//@        absfn("cdcEncode", block.LastCommitHash), absfn("cdcEncode", block.DataHash), absfn("cdcEncode", block.ValidatorsHash)))
 //@ ensures result.NextValidatorHashAndConsensusHash == ext("merkle.HashFromByteSlices", list(absfn("cdcEncode", block.NextValidatorsHash), absfn("cdcEncode", block.ConsensusHash)))
 //@ ensures result.LastResultsHash == ext("merkle.HashFromByteSlices", list(absfn("cdcEncode", block.LastResultsHash)))
 //@ ensures result.EvidenceAndProposerHash == ext("merkle.HashFromByteSlices", list(absfn("cdcEncode", block.EvidenceHash), absfn("cdcEncode", block.ProposerAddress)))
@@ -37,3 +40,19 @@ package proof
 //@ loop 0: invariant forall j :: 0 <= j && j < #i ==> paths[j].SubtreeHeight == wrapu32(vv(iavlEp.Path[j].Prefix))
 //@ loop 0: invariant forall j :: 0 <= j && j < #i ==> paths[j].SubtreeSize == wrapu64(vv(bzslice(iavlEp.Path[j].Prefix, vn(iavlEp.Path[j].Prefix), len(iavlEp.Path[j].Prefix))))
 //@ loop 0: invariant forall j :: 0 <= j && j < #i ==> paths[j].SubtreeVersion == wrapu64(vv(bzslice(iavlEp.Path[j].Prefix, off2(iavlEp.Path[j].Prefix), len(iavlEp.Path[j].Prefix))))
+
+// secp256k1 public-key recovery (go-ethereum crypto): assumed
+//@ func recoverETHAddress
+//@ trusted
+// time encoding (protobuf): assumed
+//@ func encodeTime
+//@ abstract
+
+// C12: signatures are taken from, and canonical vote bytes rebuilt for, exactly the precommits FOR THE BLOCK
+// (BlockIDFlagCommit): absent and nil votes are skipped, they are neither relayed nor allowed to fail the proof;
+// each relayed signature is the vote's own (r = first 32 bytes, s = the rest) with its own encoded timestamp.
+//@ func GetSignaturesAndPrefix
+//@ may_panic
+//@ assert before encodedTimestamp: vote.BlockIDFlag == cmttypes.BlockIDFlagCommit
+//@ loop 0: invariant true
+//@ loop 1: invariant true
